@@ -27,7 +27,8 @@ What is enumerated
                  over  V | <name>=V for EVERY unusual name (a name the signature does not declare is an unknown key) |
                  data-x=V | class=V | ...[V1, V2] | ...{"<name>": V} for every unusual name.
                  Such names are ordinary identifiers: Python writes them as plain `f(type=1)` keywords, so they must
-                 bind declared parameters and must not be handled like `class` / `data-x`.
+                 bind declared parameters and must not be handled like `class` / `data-x`.  (Seam B of part D: the
+                 same product for n <= 1 / 2 (quick / thorough) and calls of length <= 2.)
 
 Oracle (Python itself)
   The call is written as Python source `f(None, None, 10, *[21, 22], p0=30, **{"data-x": 40}, **{"p1": 57})`
